@@ -110,7 +110,8 @@ def analyse_unit(unit, extra):
                 if l in names or l.startswith(k.p_result + "["):
                     n_acc += 1
                     gated = any(a is vif for a in anc) and any(a is cif for a in anc)
-                    uses_w = norm(rhs) == wvar or norm(rhs).startswith(wvar + "*")
+                    from ..ckernel import weighted_by
+                    uses_w = weighted_by(kids(node)[1], wvar)
                     _inst(out, "R-C01-gate", gated and uses_w, KI, fn, "%s += %s" % (l, rhs[:60]), node.get("_line", 0),
                           "accumulated only for valid points above the cutoff, weighted by the tested weight"
                           if gated and uses_w else "gated=%s weighted_by_%s=%s" % (gated, wvar, uses_w))
@@ -489,25 +490,147 @@ def rule_maxpd(r):
                 g.lineno, "refusal compares the active count with the model's max_pd")
 
 
+def _strip_int(e):
+    while isinstance(e, ast.Call) and pf.call_name(e) in ("int", "np.int32", "np.uint32", "np.int64") and len(e.args) == 1:
+        e = e.args[0]
+    return e
+
+
+def _chunk_shape(fn, mod, r, f, qual):
+    """Find the chunk loop of a driver (inline, or in a generator helper the loop iterates over) and reduce it to
+    (N text, step text, start expr, stop expr, iteration form, where) - see rule_chunk."""
+    loops = [s for s in pf.walk_stmts(fn) if isinstance(s, ast.For)]
+    for lp in loops:
+        it = lp.iter
+        if isinstance(it, ast.Call) and pf.call_name(it) == "range":
+            return lp, fn, {}, f, qual
+        if isinstance(it, ast.Call) and isinstance(it.func, ast.Attribute):
+            # a generator helper: <obj>.<name>(args) defined in details.CallDetails or in this module
+            name = it.func.attr
+            for m2, rel in ((pf.lib("details"), "sasmodels/details.py"), (mod, f)):
+                cands = [q for q in m2.functions if q.split(".")[-1] == name]
+                for q in cands:
+                    g = m2.functions[q]
+                    if not any(isinstance(n, ast.Yield) for n in ast.walk(g)):
+                        continue
+                    inner = [s for s in pf.walk_stmts(g) if isinstance(s, ast.For) and isinstance(s.iter, ast.Call) and pf.call_name(s.iter) == "range"]
+                    if len(inner) != 1:
+                        continue
+                    ps = [p for p in pf.positional_params(g) if p != "self"]
+                    bind = {p: pf.unparse(a) for p, a in zip(ps, it.args)}
+                    bind["self"] = pf.unparse(it.func.value)
+                    return inner[0], g, bind, rel, q
+    return None, None, None, None, None
+
+
+def _chunk_sym(node, names):
+    """Integer expression of the chunk loop -> sympy.  names: source text -> symbol for the mesh size / step / loop variable."""
+    t = pf.unparse(node)
+    if t in names:
+        return names[t]
+    if isinstance(node, ast.Constant) and isinstance(node.value, int):
+        return sp.Integer(node.value)
+    if isinstance(node, ast.Name):
+        raise AnalysisError("chunk loop: free name %s" % node.id)
+    if isinstance(node, ast.UnaryOp) and isinstance(node.op, ast.USub):
+        return -_chunk_sym(node.operand, names)
+    if isinstance(node, ast.BinOp):
+        a, b = _chunk_sym(node.left, names), _chunk_sym(node.right, names)
+        if isinstance(node.op, ast.Add): return a + b
+        if isinstance(node.op, ast.Sub): return a - b
+        if isinstance(node.op, ast.Mult): return a * b
+        if isinstance(node.op, ast.FloorDiv): return sp.floor(a / b)
+        if isinstance(node.op, ast.Div): return a / b
+    if isinstance(node, ast.Call):
+        nm = (pf.call_name(node) or "").split(".")[-1]
+        args = [_chunk_sym(x, names) for x in node.args]
+        if nm == "min" and len(args) == 2: return sp.Min(*args)
+        if nm in ("int", "int32", "uint32", "int64") and len(args) == 1: return args[0] if args[0].is_integer else sp.floor(args[0])
+        if nm == "ceil" and len(args) == 1: return sp.ceiling(args[0])
+    raise AnalysisError("chunk loop: expression %s outside the fragment" % t)
+
+
 def rule_chunk(r):
+    """The chunk loop of each driver tiles [0, num_eval) with non-empty chunks.  Accepted shapes (inline, or in a generator
+    helper the driver iterates over, with the helper's parameters bound to the call's arguments), decided on sympy forms:
+      A  for v in range(0, N, step):       start = v,      stop = min(v + step, N)
+      B  for k in range(COUNT):            start = k*step, stop = min((k + 1)*step, N)   with COUNT == ceil(N/step)
+    where N is call_details.num_eval.  An empty trailing chunk (start == stop == N) is not harmless: the kernel's loop
+    indices wrap to the first mesh point and its body runs once before pd_stop is tested."""
+    Nsym = sp.Symbol("N", integer=True, nonnegative=True)
+    Ssym = sp.Symbol("step", integer=True, positive=True)
     for modname, qual in (("kerneldll", "DllKernel._call_kernel"), ("kernelcl", "GpuKernel._call_kernel"),
                           ("kernelcuda", "GpuKernel._call_kernel")):
         mod = pf.lib(modname)
         f = "sasmodels/%s.py" % modname
         fn = mod.func(qual)
-        loops = [s for s in pf.walk_stmts(fn) if isinstance(s, ast.For) and isinstance(s.iter, ast.Call) and pf.call_name(s.iter) == "range"]
-        if not loops:
+        lp, host, bind, hf, hq = _chunk_shape(fn, mod, r, f, qual)
+        if lp is None:
             raise AnalysisError("%s.%s: chunk loop not found" % (modname, qual))
-        lp = loops[0]
-        a = [pf.unparse(x) for x in lp.iter.args]
-        r.check(len(a) == 3 and a[0] == "0" and a[1] == "call_details.num_eval" and a[2] == "step", f, qual,
-                "for %s in range(%s)" % (pf.unparse(lp.target), ", ".join(a)), lp.lineno, "chunks start at 0 and advance by step up to num_eval")
-        S = pf.unparse(lp.target)
-        st = [s for s in lp.body if isinstance(s, ast.Assign) and pf.unparse(s.targets[0]) == "stop"]
-        r.check(bool(st) and pf.unparse(st[0].value) == "min(%s + step, call_details.num_eval)" % S, f, qual,
-                pf.unparse(st[0]) if st else "stop", st[0].lineno if st else 0, "each chunk ends where the next begins; the last at num_eval")
-        stp = [s for s in pf.walk_stmts(fn) if isinstance(s, ast.Assign) and pf.unparse(s.targets[0]) == "step" and s.lineno < lp.lineno]
+        caller_loop = [s for s in pf.walk_stmts(fn) if isinstance(s, ast.For)][0]
+        V = pf.unparse(lp.target)
+        Vsym = sp.Symbol("v", integer=True, nonnegative=True)
+        names = {V: Vsym}
+        # the mesh size: <obj>.num_eval, possibly through int() and a local alias in the helper
+        for owner in ("call_details", "self"):
+            names["%s.num_eval" % owner] = Nsym
+            names["int(%s.num_eval)" % owner] = Nsym
+        for st_ in pf.walk_stmts(host):
+            if isinstance(st_, ast.Assign) and len(st_.targets) == 1 and isinstance(st_.targets[0], ast.Name) \
+                    and pf.unparse(_strip_int(st_.value)).endswith(".num_eval"):
+                names[st_.targets[0].id] = Nsym
+        # the step: the driver's local `step` (any positive value, checked below) or the helper parameter bound to it
+        if host is fn:
+            names["step"] = Ssym
+        else:
+            for p_, a_ in bind.items():
+                if a_ == "step":
+                    names[p_] = Ssym
+        a = lp.iter.args
+        if host is fn:
+            st = [s for s in lp.body if isinstance(s, ast.Assign) and pf.unparse(s.targets[0]) == "stop"]
+            start_e, stop_e = lp.target, (st[0].value if st else None)
+            S_name, T_name = V, "stop"
+        else:
+            ys = [n for n in ast.walk(lp) if isinstance(n, ast.Yield)]
+            if len(ys) != 1 or not isinstance(ys[0].value, ast.Tuple) or len(ys[0].value.elts) != 2:
+                raise AnalysisError("%s: chunk helper %s does not yield (start, stop) pairs" % (modname, hq))
+            start_e, stop_e = ys[0].value.elts
+            tg = caller_loop.target
+            if not (isinstance(tg, ast.Tuple) and len(tg.elts) == 2):
+                raise AnalysisError("%s: chunk helper result not unpacked as (start, stop)" % modname)
+            S_name, T_name = pf.unparse(tg.elts[0]), pf.unparse(tg.elts[1])
+        if stop_e is None:
+            raise AnalysisError("%s: chunk stop not found" % modname)
+        start_v, stop_v = _chunk_sym(start_e, names), _chunk_sym(stop_e, names)
+        same_ = lambda x, y: sp.simplify(x - y) == 0
+        if len(a) == 3:
+            okr = same_(_chunk_sym(a[0], names), 0) and same_(_chunk_sym(a[1], names), Nsym) and same_(_chunk_sym(a[2], names), Ssym)
+            r.check(okr, hf, hq, "for %s in range(%s)" % (V, ", ".join(pf.unparse(x) for x in a)), lp.lineno,
+                    "chunks start at 0 and advance by step up to num_eval")
+            okt = same_(start_v, Vsym) and stop_v == sp.Min(Vsym + Ssym, Nsym)
+            r.check(okt, hf, hq, "start = %s, stop = %s" % (pf.unparse(start_e), pf.unparse(stop_e)), lp.lineno,
+                    "each chunk ends where the next begins; the last at num_eval")
+        elif len(a) == 1:
+            okt = same_(start_v, Vsym * Ssym) and stop_v == sp.Min((Vsym + 1) * Ssym, Nsym)
+            r.check(okt, hf, hq, "start = %s, stop = %s" % (pf.unparse(start_e), pf.unparse(stop_e)), lp.lineno,
+                    "k-th chunk is [k*step, min((k+1)*step, num_eval))")
+            cnt = _chunk_sym(a[0], names)
+            good = [sp.ceiling(Nsym / Ssym), sp.floor((Nsym + Ssym - 1) / Ssym), sp.floor((Nsym - 1) / Ssym) + 1, -sp.floor(-Nsym / Ssym)]
+            okc = any(cnt == g or same_(cnt, g) for g in good)
+            bad = same_(cnt, sp.floor(Nsym / Ssym) + 1)
+            if not okc and not bad:
+                raise AnalysisError("%s: chunk count %s is not a recognised form" % (modname, pf.unparse(a[0])))
+            r.check(okc, hf, hq, "for %s in range(%s)" % (V, pf.unparse(a[0])), lp.lineno,
+                    "chunk count is ceil(num_eval/step)" if okc else
+                    "the chunk count is floor(num_eval/step) + 1, not ceil(num_eval/step): a mesh whose size is a multiple of the step "
+                    "(e.g. 10 x 10 points with step 100) gets an extra, empty chunk (num_eval, num_eval), on which the kernel wraps to "
+                    "the first mesh point and adds it again")
+        else:
+            raise AnalysisError("%s: chunk loop range(%s) not understood" % (modname, ", ".join(pf.unparse(x) for x in a)))
+        # positive step
         okp = False
+        stp = [s for s in pf.walk_stmts(fn) if isinstance(s, ast.Assign) and pf.unparse(s.targets[0]) == "step" and s.lineno < caller_loop.lineno]
         if stp:
             v = stp[-1].value
             c = pf.const_value(v)
@@ -518,9 +641,9 @@ def rule_chunk(r):
                 okp = isinstance(v, ast.BinOp) and isinstance(v.op, ast.Add) and pf.const_value(v.right) == 1 \
                     and isinstance(v.left, ast.BinOp) and isinstance(v.left.op, ast.FloorDiv)
         r.check(okp, f, qual, pf.unparse(stp[-1]) if stp else "step", stp[-1].lineno if stp else 0, "positive step")
-        put = [s for s in lp.body if isinstance(s, ast.Assign) and isinstance(s.targets[0], ast.Subscript)
+        put = [s for s in caller_loop.body if isinstance(s, ast.Assign) and isinstance(s.targets[0], ast.Subscript)
                and pf.unparse(s.targets[0].slice) == "1:3"]
-        r.check(bool(put) and pf.unparse(put[0].value) in ("[%s, stop]" % S, "[np.int32(%s), np.int32(stop)]" % S), f, qual,
+        r.check(bool(put) and pf.unparse(put[0].value) in ("[%s, %s]" % (S_name, T_name), "[np.int32(%s), np.int32(%s)]" % (S_name, T_name)), f, qual,
                 pf.unparse(put[0]) if put else "args[1:3] = [start, stop]", put[0].lineno if put else 0,
                 "pd_start, pd_stop are argument slots 1 and 2 of the kernel")
 
